@@ -65,9 +65,38 @@ Fixpoint toggle_marks (ignored : bool) (l : list token) : list bool :=
 Definition asm_marked (lines : list (LogicalLineType * list nat)) (i : nat) : bool :=
   existsb (fun ln => match fst ln with LLT_AsmInstruction => existsb (Nat.eqb i) (snd ln) | _ => false end) lines.
 
+(* ... and (after the repair of F33) the conditional directives written on the physical line of an instruction:
+   a forward pass joins a directive that does not start a line to a marked predecessor, a backward pass joins a
+   directive to a marked successor that does not start a line; both read their own progress *)
+Definition is_cond_dir_tok (tok : token) : bool := match t_ty tok with TT_ConditionalDirective _ => true | _ => false end.
+Definition starts_line (tok : token) : bool := contains_byte 10 (t_ws tok) || contains_byte 13 (t_ws tok).
+
+Fixpoint asm_fwd (prev : bool) (l : list (token * bool)) : list bool :=
+  match l with
+  | [] => []
+  | (tok, m) :: r => let m' := m || (is_cond_dir_tok tok && negb (starts_line tok) && prev) in m' :: asm_fwd m' r
+  end.
+
+Fixpoint asm_bwd (l : list (token * bool)) : list bool :=
+  match l with
+  | [] => []
+  | (tok, m) :: r =>
+      let rest := asm_bwd r in
+      let joins := match r, rest with
+                   | (ntok, _) :: _, nm :: _ => negb (starts_line ntok) && nm
+                   | _, _ => false
+                   end in
+      (m || (is_cond_dir_tok tok && joins)) :: rest
+  end.
+
+Definition asm_base (toks : list token) (lines : list (LogicalLineType * list nat)) : list bool :=
+  map (asm_marked lines) (seq 0 (length toks)).
+
+Definition asm_marks (toks : list token) (lines : list (LogicalLineType * list nat)) : list bool :=
+  asm_bwd (combine toks (asm_fwd false (combine toks (asm_base toks lines)))).
+
 Definition ignore_marks (toks : list token) (lines : list (LogicalLineType * list nat)) : list bool :=
-  let tm := toggle_marks false toks in
-  map (fun ib => snd ib || asm_marked lines (fst ib)) (combine (seq 0 (length tm)) tm).
+  map (fun ab => fst ab || snd ab) (combine (toggle_marks false toks) (asm_marks toks lines)).
 
 (* formatter.rs: a line all of whose tokens are ignored is voided (only when something is marked) *)
 Definition void_lines (marks : list bool) (lines : list (LogicalLineType * list nat)) : list (LogicalLineType * list nat) :=
